@@ -349,7 +349,7 @@ class Models:
             if state['i'] >= len(state['items']):
                 return NoneV()
             return Some(state['items'].pop())
-        it = IterM(nxt, kind, back)
+        it = IterM(nxt, kind, back, remaining=lambda: len(state['items']) - state['i'])
         return it
 
     def as_iter(self, ex, v, by_ref=False):
@@ -530,6 +530,11 @@ class Models:
                 return t
             if isinstance(t, Ptr) and t.boxed:
                 return t
+            if isinstance(t, Enum) and t.ename == 'Cow':
+                ex.force(t)
+                if t.variant == 'Borrowed':
+                    return t.f[0]
+                return p.downcast_field('Owned', 0) if hasattr(p, 'downcast_field') else Ptr(Cell(t.f[0]))
             if isinstance(t, Struct) and t.name in ('BinaryString', 'ContentId') and len(t.f) == 1:
                 inner = t.f[0]
                 if isinstance(inner, VecM):
@@ -613,6 +618,18 @@ class Models:
         @M.path('String', 'new')
         def _string_new(ex, args, info):
             return StrV([], StrV.intern_id(b''))
+
+        @M.path('String', ['push_str', 'push'])
+        def _push_str(ex, args, info):
+            dst, src = deref(args[0]), deref(args[1])
+            if isinstance(dst, StrV) and dst.data is not None and isinstance(src, StrV) and src.data is not None:
+                dst.data.extend(src.data)
+                dst.sid = None
+            elif isinstance(dst, StrV):
+                dst.data, dst.sid = None, z3.Int(ex.fresh('str'))        # text that only ever reaches messages
+            else:
+                raise Unsupported('push_str on %r' % (dst,))
+            return Unit()
 
         @M.path('String', ['as_str', 'as_bytes', 'into_bytes', 'as_mut_str'])
         @M.path('str', ['as_bytes', 'as_ptr', 'to_owned', 'to_string'])
@@ -1115,6 +1132,22 @@ class Models:
                 return SliceRef(base, lo, hi - lo)
             raise Unsupported('index with %r' % (idx,))
 
+        # ---------- sorting (stable): order decided by the solver through key_lt, one fork per undecided comparison
+        @M.path({'slice'} | VECS, ['sort_by_key', 'sort_by_cached_key', 'sort', 'sort_unstable', 'sort_unstable_by_key'])
+        def _sort(ex, args, info):
+            sl = args[0]
+            if not isinstance(sl, SliceRef):
+                sl = SliceRef(sl, 0, len(sl.load().items))
+            items = sl.items()
+            if len(items) < 2:
+                return Unit()
+            keys = [ex.call_value(args[1], [Ptr(Cell(x))]) for x in items] if len(args) > 1 else list(items)
+            order = M.sorted_order(ex, keys)
+            new = [items[i] for i in order]
+            for i, x in enumerate(new):
+                sl.set(i, x)
+            return Unit()
+
         # ---------- slice adapters
         @M.path({'slice'}, ['chunks', 'chunks_exact', 'chunks_mut', 'chunks_exact_mut'])
         def _chunks(ex, args, info):
@@ -1206,7 +1239,7 @@ class Models:
             def nxt(ex_):
                 r = ex_.force(src.nextf(ex_))
                 return Some(clone_val(deref(r.f[0]))) if r.variant == 'Some' else r
-            return IterM(nxt, 'copied')
+            return IterM(nxt, 'copied', src=src)
 
         @M.trait('Iterator', 'map')
         def _map(ex, args, info):
@@ -1215,7 +1248,7 @@ class Models:
             def nxt(ex_):
                 r = ex_.force(src.nextf(ex_))
                 return Some(ex_.call_value(f, [r.f[0]])) if r.variant == 'Some' else r
-            return IterM(nxt, 'map')
+            return IterM(nxt, 'map', src=src)
 
         @M.trait('Iterator', 'filter')
         def _filter(ex, args, info):
@@ -1256,7 +1289,7 @@ class Models:
                     return r
                 i = st['i']; st['i'] += 1
                 return Some(Struct([mk_int(i, 'usize'), r.f[0]]))
-            return IterM(nxt, 'enumerate')
+            return IterM(nxt, 'enumerate', src=src)
 
         @M.trait('Iterator', 'zip')
         def _zip(ex, args, info):
@@ -1395,7 +1428,11 @@ class Models:
 
         @M.trait('ExactSizeIterator', 'len')
         def _iter_len(ex, args, info):
-            raise Unsupported('ExactSizeIterator::len')
+            it = deref(args[0])
+            n = it.exact_len() if isinstance(it, IterM) else None
+            if n is None:
+                raise Unsupported('ExactSizeIterator::len on %r' % (getattr(it, 'kind', it),))
+            return mk_int(n, 'usize')
 
         # ---------- maps / sets
         @M.path(MAPS | SETS, ['new', 'default', 'with_capacity', 'with_hasher', 'with_capacity_and_hasher'])
@@ -1493,9 +1530,11 @@ class Models:
         def _map_entry(ex, args, info):
             mp, key = deref(args[0]), args[1]
             i = M.map_find(ex, mp, key, 'map entry')
+            # std: hash_map::Entry { Occupied, Vacant } but btree_map::Entry { Vacant, Occupied }
+            en = 'BTreeEntry' if (getattr(mp, 'ordered', False) or getattr(mp, 'kind', '') == 'BTreeMap') else 'Entry'
             if i is None:
-                return Enum('Entry', 'Vacant', [Opaque('VacantEntry', (mp, key))])
-            return Enum('Entry', 'Occupied', [Opaque('OccupiedEntry', (mp, i))])
+                return Enum(en, 'Vacant', [Opaque('VacantEntry', (mp, key))])
+            return Enum(en, 'Occupied', [Opaque('OccupiedEntry', (mp, i))])
 
         @M.path('Entry', ['or_insert', 'or_insert_with', 'or_default', 'and_modify'])
         def _entry_or_insert(ex, args, info):
@@ -1733,7 +1772,12 @@ class Models:
     def convert(self, ex, v, target, info):
         """Into/From between model values (mostly identities on our representations)."""
         if target in ('Ustr', 'String', 'str', 'Cow', 'PathBuf', 'OsString'):
-            return deref(v) if isinstance(v, Ptr) else v
+            v = deref(v) if isinstance(v, Ptr) else v
+            if isinstance(v, Enum) and v.ename == 'Cow' and target != 'Cow':
+                ex.force(v)
+                inner = deref(v.f[0])
+                return StrV(list(inner.data) if inner.data is not None else None, inner.sid) if isinstance(inner, StrV) else inner
+            return v
         if target in ('Ref', 'UniqueId'):
             return v
         if target in ('VecDeque', 'Vec'):
